@@ -40,8 +40,8 @@ type c15 struct{}
 
 func init() { register(&c15{}) }
 
-func (*c15) ID() string                      { return "C15" }
-func (*c15) Level() string                   { return "fault_enumeration" }
+func (*c15) ID() string                     { return "C15" }
+func (*c15) Level() string                  { return "fault_enumeration" }
 func (*c15) Decode(raw []byte) (any, error) { return decodeInto[C15Scenario](raw) }
 
 var c15Alphabet = []string{"first-ok", "first-foreign", "first-trunc", "first-malformed", "first-iter0", "final-ok", "final-prev", "final-other", "final-empty", "final-zerokey", "final-blank", "empty", "junk", "235", "535"}
